@@ -163,6 +163,16 @@ def run():
     # the ping deadline expires: the connection closes under the waiting callers (150 ms each: few)
     add("ptime2", 2, gen(ctx, "ptime2", 2, cancel=1, ptimeout=True, pong=True), ["sync"], limit=24 if q else None, hold=True,
         ping_ms=[3600000, 150])
+    # the same, with a Pong bearing a foreign id (never issued / the id of a caller's request) arriving while the ping waits: it is not the
+    # ping's answer, the deadline still closes the connection
+    pt = gen(ctx, "ptime2", 2, cancel=1, ptimeout=True, pong=True)
+    stray = []
+    for st in pick(pt, 6 if q else 24, ctx.seed):
+        k = next((i for i, op in enumerate(st) if op["a"] == "ptimeout"), None)
+        if k is not None:
+            for rid in (77777, 99998):
+                stray.append(st[:k] + [{"a": "spur", "seq": rid, "mode": "pong"}] + st[k:])
+    add("straypong2", 2, stray, ["sync"], hold=True, ping_ms=[3600000, 150])
     # larger n: random behaviours of GenSpec (TLC simulation, seeded), all requests outstanding at once, fast keep-alive pings, delays
     for n in ([4, 6, 8] if q else [4, 5, 6, 7, 8]):
         sims = gen(ctx, "sim%d" % n, n, dup=1, spur=1, cancel=2, barrier=True, simulate=60 if q else 400)
